@@ -1128,28 +1128,7 @@ class PendingClassDef(_PendingCompoundStmt[ClassDef]):
         if metaclass_expr is None:
             metaclass_expr = Name(id="type", ctx=Load())
 
-        return_list.append(
-            self.nsp.get_assign(
-                self.node.name,
-                Call(
-                    func=metaclass_expr,
-                    args=[
-                        Constant(value=self.node.name),
-                        Tuple(elts=class_bases, ctx=Load()),
-                        Dict(keys=[], values=[]),
-                    ],
-                    keywords=class_keywords,
-                ),
-            )
-        )
-
         class_body: list[expr] = []
-        class_body.append(
-            NamedExpr(  # one step of injecting the __class__ cell
-                target=Name(id="__class__", ctx=Store()),
-                value=self.nsp.get_load_name(self.node.name),
-            )
-        )
         class_body.append(
             NamedExpr(
                 target=self.internal_nsp.class_member_dict_expr,
@@ -1157,65 +1136,48 @@ class PendingClassDef(_PendingCompoundStmt[ClassDef]):
             )
         )
         class_body.extend(self.converted_body)
-        class_body.append(self.internal_nsp.class_member_dict_expr)
-
-        loader_name = ol_name(OL_CLASS_LOADER)
-
-        return_list.append(
+        # The class is created inside the loader after its body ran, so that the
+        # metaclass gets the complete namespace (__slots__, __set_name__,
+        # __init_subclass__ ... work as usual). Binding it to __class__ fills
+        # the cell that the zero-argument super() of the methods refers to.
+        class_body.append(
             NamedExpr(
-                target=Name(id=loader_name, ctx=Store()),
-                value=Lambda(
-                    args=arguments(
-                        posonlyargs=[],
-                        args=[],
-                        kwonlyargs=[],
-                        kw_defaults=[],
-                        defaults=[],
-                    ),
-                    body=Subscript(
-                        value=List(elts=class_body, ctx=Load()),
-                        slice=UnaryOp(op=USub(), operand=Constant(value=1)),
-                        ctx=Load(),
-                    ),
+                target=Name(id="__class__", ctx=Store()),
+                value=Call(
+                    func=metaclass_expr,
+                    args=[
+                        Constant(value=self.node.name),
+                        Tuple(elts=class_bases, ctx=Load()),
+                        self.internal_nsp.class_member_dict_expr,
+                    ],
+                    keywords=class_keywords,
                 ),
             )
         )
 
-        load_class = ListComp(
-            elt=Call(
-                func=Name(id="setattr", ctx=Load()),
-                args=[
-                    self.nsp.get_load_name(self.node.name),
-                    Name(id="k", ctx=Load()),
-                    Name(id="v", ctx=Load()),
-                ],
-                keywords=[],
-            ),
-            generators=[
-                comprehension(
-                    target=Tuple(
-                        elts=[Name(id="k", ctx=Store()), Name(id="v", ctx=Store())],
-                        ctx=Store(),
-                    ),
-                    iter=Call(
-                        func=Attribute(
-                            value=Call(
-                                func=Name(id=loader_name, ctx=Load()),
-                                args=[],
-                                keywords=[],
-                            ),
-                            attr="items",
+        return_list.append(
+            self.nsp.get_assign(
+                self.node.name,
+                Call(
+                    func=Lambda(
+                        args=arguments(
+                            posonlyargs=[],
+                            args=[],
+                            kwonlyargs=[],
+                            kw_defaults=[],
+                            defaults=[],
+                        ),
+                        body=Subscript(
+                            value=List(elts=class_body, ctx=Load()),
+                            slice=UnaryOp(op=USub(), operand=Constant(value=1)),
                             ctx=Load(),
                         ),
-                        args=[],
-                        keywords=[],
                     ),
-                    ifs=[],
-                    is_async=0,
-                )
-            ],
+                    args=[],
+                    keywords=[],
+                ),
+            )
         )
-        return_list.append(load_class)
 
         if class_decorators:
             # decorators are applied to the finished class, bottom-up
